@@ -9,6 +9,9 @@ package main
 import (
 	"context"
 	"fmt"
+	"os"
+	"os/exec"
+	"strconv"
 	"time"
 
 	"github.com/varlink/go/varlink"
@@ -16,6 +19,18 @@ import (
 
 func init() {
 	commands["lifeprobe"] = func(e *env) error {
+		// isolated in a child process: whatever a trial leaves behind cannot disturb the rest of the run
+		if os.Getenv("VERIF_LIFE_CHILD") == "" {
+			cmd := exec.Command(os.Args[0], "lifeprobe", "-n", strconv.Itoa(e.n), "-seed", strconv.FormatUint(e.seed, 10))
+			cmd.Env = append(os.Environ(), "VERIF_LIFE_CHILD=probe")
+			cmd.Stderr = os.Stderr
+			out, err := cmd.Output()
+			if err != nil {
+				return err
+			}
+			_, err = e.out.Write(out)
+			return err
+		}
 		hits, refused, early := 0, 0, 0
 		stuck := 0
 		for t := 0; t < e.n; t++ {
